@@ -611,6 +611,16 @@ class ExprMixin:
             if not (z3.is_int_value(step) and step.as_long() == 1):
                 raise Unsupported("membership in stepped range")
             return z3.And(lo <= x, x < hi)
+        if isinstance(t, TPy) and container.z[0] == "keytable":
+            keys = container.z[1]
+            item = self.need_value(item, st, node, "key")
+            outs = []
+            for kv in keys:
+                if isinstance(kv, str) and isinstance(item.t, TStr):
+                    outs.append(item.z == prelude().strlit(kv))
+                elif isinstance(kv, int) and isinstance(item.t, TInt):
+                    outs.append(item.z == kv)
+            return z3.Or(*outs) if outs else z3.BoolVal(False)
         if isinstance(t, TTuple):
             if not t.elts:
                 return z3.BoolVal(False)
